@@ -85,6 +85,9 @@ func (t *ATable) AddRow(row *Row) Table {
 	// a row which is already in a table shares that table's error container:
 	// only a row joining its first table has errors of its own to hand over
 	ownErrors := row.inTable == nil
+	if row.inTable != nil && row.inTable != t {
+		row.alsoInTables = append(row.alsoInTables, row.inTable)
+	}
 	row.inTable = t
 	row.rowNum = len(t.rows)
 	t.resizeColumnsAtLeast(len(row.cells))
